@@ -573,7 +573,7 @@ fn format_directive<'entry>(
         FormatDirective::Permissions(PermissionsFormat::Octal) => "777".into(),
         #[cfg(unix)]
         FormatDirective::Permissions(PermissionsFormat::Octal) => {
-            format!("{:>03o}", meta()?.mode() & 0o7777).into()
+            format!("{:o}", meta()?.mode() & 0o7777).into()
         }
 
         FormatDirective::Size => meta()?.len().to_string().into(),
@@ -673,7 +673,10 @@ impl Printf {
         })
     }
 
-    fn print(&self, file_info: &WalkEntry, mut out: impl Write) -> std::io::Result<()> {
+    /// Writes the text for `file_info`; `Ok(false)` when a directive could not be
+    /// rendered (diagnosed, and printed as nothing).
+    fn print(&self, file_info: &WalkEntry, mut out: impl Write) -> std::io::Result<bool> {
+        let mut complete = true;
         for component in &self.format.components {
             match component {
                 FormatComponent::Literal(literal) => write!(out, "{literal}")?,
@@ -683,43 +686,47 @@ impl Printf {
                     directive,
                     width,
                     justify,
-                } => match format_directive(file_info, directive) {
-                    Ok(content) => {
-                        if let Some(width) = width {
-                            // Padded by hand: the formatting machinery refuses
-                            // (panics on) widths above 65535.
-                            let mut blanks = width.saturating_sub(content.chars().count());
-                            if matches!(justify, Justify::Left) {
-                                write!(out, "{content}")?;
-                            }
-                            while blanks > 0 {
-                                let n = blanks.min(64);
-                                write!(out, "{:n$}", "")?;
-                                blanks -= n;
-                            }
-                            if matches!(justify, Justify::Right) {
-                                write!(out, "{content}")?;
-                            }
-                        } else {
+                } => {
+                    let content = match format_directive(file_info, directive) {
+                        Ok(content) => content,
+                        Err(e) => {
+                            // The rest of the format is still written. (A diagnostic
+                            // that cannot be written must not stop the walk.)
+                            let _ = writeln!(
+                                std::io::stderr(),
+                                "Error processing '{}': {}",
+                                file_info.path().to_string_lossy(),
+                                e
+                            );
+                            complete = false;
+                            Default::default()
+                        }
+                    };
+                    if let Some(width) = width {
+                        // Padded by hand: the formatting machinery refuses
+                        // (panics on) widths above 65535.
+                        let mut blanks = width.saturating_sub(content.chars().count());
+                        if matches!(justify, Justify::Left) {
                             write!(out, "{content}")?;
                         }
+                        while blanks > 0 {
+                            let n = blanks.min(64);
+                            write!(out, "{:n$}", "")?;
+                            blanks -= n;
+                        }
+                        if matches!(justify, Justify::Right) {
+                            write!(out, "{content}")?;
+                        }
+                    } else {
+                        write!(out, "{content}")?;
                     }
-                    Err(e) => {
-                        // A diagnostic that cannot be written must not stop the walk.
-                        let _ = writeln!(
-                            std::io::stderr(),
-                            "Error processing '{}': {}",
-                            file_info.path().to_string_lossy(),
-                            e
-                        );
-                        break;
-                    }
-                },
+                }
             }
         }
         // Like -print: what this action wrote comes before the output of any
         // command a later action runs.
-        out.flush()
+        out.flush()?;
+        Ok(complete)
     }
 }
 
@@ -727,19 +734,25 @@ impl Matcher for Printf {
     fn matches(&self, file_info: &WalkEntry, matcher_io: &mut MatcherIO) -> bool {
         if let Some(file) = &self.output_file {
             // As for -fprint: a file that cannot be written is diagnosed.
-            if let Err(e) = self.print(file_info, file) {
-                let _ = writeln!(
-                    &mut stderr(),
-                    "Error writing {:?} for {}",
-                    file_info.path().to_string_lossy(),
-                    e
-                );
-                matcher_io.set_exit_code(1);
+            match self.print(file_info, file) {
+                Ok(true) => {}
+                Ok(false) => matcher_io.set_exit_code(1),
+                Err(e) => {
+                    let _ = writeln!(
+                        &mut stderr(),
+                        "Error writing {:?} for {}",
+                        file_info.path().to_string_lossy(),
+                        e
+                    );
+                    matcher_io.set_exit_code(1);
+                }
             }
         } else {
             let result = self.print(file_info, &mut *matcher_io.deps.get_output().borrow_mut());
-            if let Err(e) = result {
-                matcher_io.standard_output_failed(&e);
+            match result {
+                Ok(true) => {}
+                Ok(false) => matcher_io.set_exit_code(1),
+                Err(e) => matcher_io.standard_output_failed(&e),
             }
         }
 
